@@ -142,6 +142,9 @@ fn main() -> Result<()> {
             dest.to_path_buf()
         };
 
+        if source.is_dir() && target_base.exists() && !target_base.is_dir() {
+            return Err(XcpError::InvalidDestination("Cannot copy a directory to a file.").into());
+        }
         if source == &target_base || (target_base.exists() && is_same_file(source, &target_base)?) {
             return Err(XcpError::InvalidSource("Source is same as destination").into());
         }
